@@ -17,7 +17,8 @@ struct F {
 
 #[derive(Clone, Debug)]
 enum T {
-	Lit(Vec<F>, Option<u32>), // fields + optional probe id (field named p<id>, model name 100+id)
+	Lit(Vec<F>, Option<u32>, bool), // fields + optional probe id (field named p<id>, model name 100+id) + chain probe `q+::`
+	Twice(Box<T>, Option<Box<T>>), // `local m = <t>; m + [mid +] m` : the SAME object value at two layers of one chain
 	Add(Box<T>, Box<T>),
 	Rm(Box<T>, u32),
 }
@@ -25,7 +26,9 @@ enum T {
 const NAMES: [&str; 3] = ["a", "b", "c"];
 
 fn name_of(n: u32) -> String {
-	if n >= 100 {
+	if n == 200 {
+		"q".to_string()
+	} else if n >= 100 {
 		format!("p{}", n - 100)
 	} else {
 		NAMES[n as usize].to_string()
@@ -36,6 +39,7 @@ fn id_of(s: &str) -> i64 {
 		"a" => 0,
 		"b" => 1,
 		"c" => 2,
+		"q" => 200,
 		_ => s.strip_prefix('p').and_then(|x| x.parse::<i64>().ok()).map_or(-1, |x| 100 + x),
 	}
 }
@@ -43,7 +47,7 @@ fn id_of(s: &str) -> i64 {
 impl T {
 	fn json(&self) -> Value {
 		match self {
-			T::Lit(fs, probe) => {
+			T::Lit(fs, probe, chain) => {
 				let mut v: Vec<Value> = fs
 					.iter()
 					.map(|f| json!({"n":f.n,"add":f.add,"vis":(["n","h","u"][f.vis as usize]),"val":f.val}))
@@ -51,15 +55,22 @@ impl T {
 				if let Some(p) = probe {
 					v.push(json!({"n":100+p,"add":false,"vis":"h","val":0}));
 				}
+				if *chain {
+					v.push(json!({"n":200,"add":true,"vis":"h","val":0}));
+				}
 				json!({"k":"lit","fs":v})
 			}
+			T::Twice(m, mid) => match mid {
+				None => json!({"k":"add","a":m.json(),"b":m.json()}),
+				Some(x) => json!({"k":"add","a":{"k":"add","a":m.json(),"b":x.json()},"b":m.json()}),
+			},
 			T::Add(a, b) => json!({"k":"add","a":a.json(),"b":b.json()}),
 			T::Rm(o, n) => json!({"k":"rm","o":o.json(),"ns":[n]}),
 		}
 	}
 	fn src(&self, nnames: usize) -> String {
 		match self {
-			T::Lit(fs, probe) => {
+			T::Lit(fs, probe, chain) => {
 				let mut parts: Vec<String> = fs
 					.iter()
 					.map(|f| {
@@ -84,23 +95,51 @@ impl T {
 						get.join(", ")
 					));
 				}
+				if *chain {
+					// the per-layer probe goes through an object-level local (bound once per (object, layer))
+					let has: Vec<String> =
+						(0..nnames).map(|i| format!("\"{}\" in super", NAMES[i])).collect();
+					let get: Vec<String> = (0..nnames)
+						.map(|i| format!("if \"{0}\" in super then super.{0} else null", NAMES[i]))
+						.collect();
+					parts.insert(0, format!("local ql = [[{}], [{}]]", has.join(", "), get.join(", ")));
+					parts.push("q+:: [ql]".to_string());
+				}
 				format!("{{ {} }}", parts.join(", "))
 			}
+			T::Twice(m, mid) => match mid {
+				None => format!("(local m = {}; m + m)", m.src(nnames)),
+				Some(x) => format!("(local m = {}; m + ({}) + m)", m.src(nnames), x.src(nnames)),
+			},
 			T::Add(a, b) => format!("({}) + ({})", a.src(nnames), b.src(nnames)),
 			T::Rm(o, n) => format!("std.objectRemoveKey({}, \"{}\")", o.src(nnames), name_of(*n)),
 		}
 	}
 	fn size(&self) -> usize {
 		match self {
-			T::Lit(fs, p) => 1 + fs.len() + usize::from(p.is_some()),
+			T::Lit(fs, p, c) => 1 + fs.len() + usize::from(p.is_some()) + usize::from(*c),
+			T::Twice(m, mid) => 2 + 2 * m.size() + mid.as_ref().map_or(0, |x| x.size()),
 			T::Add(a, b) => 1 + a.size() + b.size(),
 			T::Rm(o, _) => 1 + o.size(),
 		}
 	}
 	fn probes(&self, out: &mut Vec<u32>) {
 		match self {
-			T::Lit(_, Some(p)) => out.push(*p),
-			T::Lit(_, None) => {}
+			T::Lit(_, Some(p), _) => out.push(*p),
+			T::Lit(_, None, _) => {}
+			T::Twice(m, mid) => {
+				// the probe names of `m` occur twice; the read sees the top-most copy
+				let mut inner = Vec::new();
+				m.probes(&mut inner);
+				if let Some(x) = mid {
+					x.probes(&mut inner);
+				}
+				for p in inner {
+					if !out.contains(&p) {
+						out.push(p);
+					}
+				}
+			}
 			T::Add(a, b) => {
 				a.probes(out);
 				b.probes(out);
@@ -110,7 +149,14 @@ impl T {
 	}
 	fn kinds(&self, h: &mut [usize; 8]) {
 		match self {
-			T::Lit(fs, _) => {
+			T::Twice(m, mid) => {
+				h[7] += 1;
+				m.kinds(h);
+				if let Some(x) = mid {
+					x.kinds(h);
+				}
+			}
+			T::Lit(fs, _, _) => {
 				h[0] += 1;
 				for f in fs {
 					if f.add {
@@ -154,13 +200,23 @@ impl Gen {
 		} else {
 			None
 		};
-		T::Lit(fs, p)
+		T::Lit(fs, p, false)
 	}
 	fn random(&mut self, rng: &mut Rng, depth: usize, nnames: usize) -> T {
 		if depth == 0 || rng.chance(1, 4) {
 			let opts: Vec<usize> =
 				(0..nnames).map(|_| if rng.chance(2, 5) { 0 } else { 1 + rng.below(6) }).collect();
-			return self.lit_from(&opts, rng.chance(1, 2));
+			let mut l = self.lit_from(&opts, rng.chance(1, 2));
+			if let T::Lit(_, _, c) = &mut l {
+				*c = rng.chance(1, 2);
+			}
+			return l;
+		}
+		if rng.chance(1, 6) {
+			// a mixin used twice in one chain
+			let m = self.random(rng, depth - 1, nnames);
+			let mid = if rng.chance(1, 2) { Some(Box::new(self.random(rng, depth - 1, nnames))) } else { None };
+			return T::Twice(Box::new(m), mid);
 		}
 		if rng.chance(1, 4) {
 			let o = self.random(rng, depth - 1, nnames);
@@ -308,10 +364,12 @@ pub fn run(opts: &Opts) {
 			})
 			.collect();
 		let pr: Vec<String> = probes.iter().map(|p| format!("o.p{p}")).collect();
+		let has_chain = src.contains("q+:: [ql]");
 		let code = format!(
-			"local o = {src}; {{ fields: std.objectFields(o), fieldsAll: std.objectFieldsAll(o), len: std.length(o), per: [{}], probes: [{}], vis: {{ [k]: o[k] for k in std.objectFields(o) }}, o: o, eqself: o == o }}",
+			"local o = {src}; {{ fields: std.objectFields(o), fieldsAll: std.objectFieldsAll(o), len: std.length(o), per: [{}], probes: [{}], chain: {}, vis: {{ [k]: o[k] for k in std.objectFields(o) }}, o: o, eqself: o == o }}",
 			per.join(", "),
-			pr.join(", ")
+			pr.join(", "),
+			if has_chain { "o.q" } else { "null" }
 		);
 		let probe_ids: Vec<u32> = probes.iter().map(|p| 100 + p).collect();
 		// shape through the hook
@@ -347,6 +405,7 @@ pub fn run(opts: &Opts) {
 					"fields": names_to_ids(&v["fields"]),
 					"fieldsAll": names_to_ids(&v["fieldsAll"]),
 					"per": per,
+					"chain": v["chain"].as_array().map(|a| a.iter().map(|p| json!({"has":p[0],"get":p[1]})).collect::<Vec<_>>()),
 					"probes": v["probes"].as_array().map(|a| a.iter().map(|p| json!({"has":p[0],"get":p[1]})).collect::<Vec<_>>()).unwrap_or_default(),
 				});
 				if !consistent {
@@ -358,13 +417,13 @@ pub fn run(opts: &Opts) {
 			Err(p) => json!({"panic": p}),
 		};
 		w.case(
-			json!({"op":"obj.probe","t":tj,"src":src,"names":names,"probes":probe_ids,"size":t.size()}),
+			json!({"op":"obj.probe","t":tj,"src":src,"names":names,"probes":probe_ids,"chain":if has_chain { json!(200) } else { Value::Null },"size":t.size()}),
 			ans,
 		);
 	}
 	let meta = json!({
 		"engine":"c02","cases":w.n,"enumerated_terms":n_enum,"random_terms":n_rand,
-		"constructor_hist":{"lit":hist[0],"add":hist[1],"rm":hist[2],"plus_fields":hist[3],"vis_normal":hist[4],"vis_hidden":hist[5],"vis_unhide":hist[6]},
+		"constructor_hist":{"lit":hist[0],"add":hist[1],"rm":hist[2],"plus_fields":hist[3],"vis_normal":hist[4],"vis_hidden":hist[5],"vis_unhide":hist[6],"mixin_used_twice":hist[7]},
 		"rule":"object terms over {literal with :,::,:::,+: members, a+b, objectRemoveKey}: all 2-layer chains over 2 names x 7 member kinds (+ removal variants), all 3-layer chains over 1 name with removals at each position above an extra base, seeded random terms to depth 4/5 over 3 names; observed via objectFields/All, objectHas/All, in, reads, per-layer `in super`/`super.f` probes, manifest, ==, std.length, and the layer vector via verif_core_shape"
 	});
 	w.finish(meta, &opts.out);
